@@ -236,7 +236,7 @@ func (w *w1) returnsDirty(fn *ssa.Function, i int, d int) bool {
 // ends in an abort).
 func (w *w1) discharged(fn *ssa.Function, v ssa.Value, ev dirtyEvent, d int) bool {
 	V := w.c.V
-	if fn == V.InodeWrite && strings.HasPrefix(ev.what, "bmap") {
+	if fn == V.InodeWrite && (strings.HasPrefix(ev.what, "bmap") || w.bmapHelperCall(ev.in)) {
 		ok, _ := w.writeContract(v)
 		return ok
 	}
@@ -343,8 +343,8 @@ func ruleW1(c *Ctx, id string) {
 					key = fmt.Sprintf("%s#%d", base, seenEv[base])
 				}
 				ok := w.discharged(fn, x.v, ev, 0)
-				if fn == V.InodeWrite && strings.HasPrefix(ev.what, "bmap") {
-					R.Check(ok, id, key+"|frozen contract", P.Pos(ev.in.Pos()), "Inode.Write: every 'success' return is preceded by WriteInode (frozen contract: a completed iteration makes cnt > 0)", "WriteInode dominates each constant-true return", "a success return of Inode.Write is not preceded by WriteInode: allocated blocks / the new size are lost at restart")
+				if fn == V.InodeWrite && (strings.HasPrefix(ev.what, "bmap") || w.bmapHelperCall(ev.in)) {
+					R.Check(ok, id, "(*inode.Inode).Write|bmap (dirty iff it allocated)|frozen contract", P.Pos(ev.in.Pos()), "Inode.Write: every 'success' return is preceded by WriteInode (frozen contract: a completed iteration makes cnt > 0)", "WriteInode dominates each constant-true return", "a success return of Inode.Write is not preceded by WriteInode: allocated blocks / the new size are lost at restart")
 					continue
 				}
 				if ok {
@@ -516,19 +516,27 @@ func ruleW2(c *Ctx, id string) {
 		if len(apply.Params) > 3 {
 			dcp = apply.Params[3] // Apply(dip, op, start, dircount, maxcount, f)
 		}
-		for _, br := range branches(apply) {
-			if br.Cond.X == nil || br.Cond.Y == nil || dcp == nil || stripConv(br.Cond.Y) != ssa.Value(dcp) {
-				continue
-			}
-			// br.Cond.X = dirbytes_new = phi + conv(c + len)
-			if add, ok := stripConv(br.Cond.X).(*ssa.BinOp); ok && add.Op == token.ADD {
-				for _, opnd := range []ssa.Value{add.X, add.Y} {
-					if inner, ok := stripConv(opnd).(*ssa.BinOp); ok && inner.Op == token.ADD {
-						if k, isk := constInt(inner.X); isk {
-							dirc = k
-						} else if k, isk := constInt(inner.Y); isk {
-							dirc = k
-						}
+		// the comparison with dircount may sit in an accounting helper: look in every scope, under its substitution
+		for _, sc := range scopesOf(apply) {
+			for _, blk := range sc.Fn.Blocks {
+				for _, in := range blk.Instrs {
+					cmp, ok := in.(*ssa.BinOp)
+					if !ok || dcp == nil {
+						continue
+					}
+					switch cmp.Op {
+					case token.GEQ, token.GTR, token.LSS, token.LEQ:
+					default:
+						continue
+					}
+					if sc.S.resolve(cmp.Y) != ssa.Value(dcp) {
+						continue
+					}
+					// normal form of the accumulated quantity: (+ c <accumulator> len(name))
+					form := sym(&symCtx{}, cmp.X, sc.S, 0)
+					var k int64
+					if n, err := fmt.Sscanf(form, "(+ %d ", &k); err == nil && n == 1 && strings.Contains(form, "len(") {
+						dirc = k
 					}
 				}
 			}
@@ -781,4 +789,20 @@ func capturedAs(call *ssa.Call, cal *ssa.Function, v ssa.Value) []ssa.Value {
 		}
 	}
 	return out
+}
+
+
+// bmapHelperCall: in is the call, inside Inode.Write, of a private helper of
+// Write that holds Write's block loop (the bmap call was moved there): the
+// frozen contract of Write then speaks about that call.
+func (w *w1) bmapHelperCall(in ssa.Instruction) bool {
+	call, ok := in.(*ssa.Call)
+	if !ok {
+		return false
+	}
+	h := call.Call.StaticCallee()
+	if h == nil || !(isPrivateHelper(h) || h.Parent() != nil) || h.Blocks == nil {
+		return false
+	}
+	return len(w.c.P.CallsIn(h, funcIs(w.c.V.bmap))) > 0
 }
